@@ -321,6 +321,9 @@ func (m *Method) CreateAlias(newName value.Symbol) *Method {
 	alias := m.Copy()
 	alias.Name = newName
 	alias.Base = m
+	// the alias itself still has to be defined at run time, even when the
+	// aliased method has already been compiled (by an earlier REPL input)
+	alias.SetCompiled(false)
 	return alias
 }
 
